@@ -109,6 +109,28 @@ def workload(seed):
         out['formatted_kevents_digest'] = core.digest('\n'.join(PyKdebugParser().formatted_kevents(io.BytesIO(data))))
     except Exception as x:
         out['formatted_traces'] = [f'<raised {type(x).__name__}: {x}>']
+    # coloured trace lines (the tool's default): every listed error code, signal, family x type in one dump
+    listed = []
+    for c in range(0, 135):
+        listed += H.on_thread(12, H.syscall('BSC_read', (3, 0x1000, 16, 0), (c, 16, 0, 0)))
+    for sgn in range(1, 32):
+        listed += H.on_thread(12, H.syscall('BSC_sigaction', (sgn, 0x10, 0x20, 0), (0, 0, 0, 0)))
+    for a in sorted(D.AF):
+        for k in sorted(D.SOCK):
+            listed += H.on_thread(12, H.syscall('BSC_socket', (a, k, 0, 0), (rng.choice((0, 41, 43, 60)), 3, 0, 0)))
+    for o in opts[:20]:
+        listed += H.on_thread(12, H.syscall('BSC_setsockopt', (3, D.SOL_SOCKET, o, 4), (0, 0, 0, 0)))
+    levs = H.materialize(listed, t0=0x300000001)
+    cdata = wire.v2_file(gen.threadmap_for(levs), 8, gen.events_to_records(levs))
+    pc = PyKdebugParser()
+    pc.color = True
+    try:
+        out['coloured_traces'] = list(pc.formatted_traces(io.BytesIO(cdata)))
+        out['coloured_traces_of_the_dump'] = list(pc.formatted_traces(io.BytesIO(data)))
+        if not any('\x1b[' in l for l in out['coloured_traces']):
+            out['coloured_traces'].append('<no escape sequence in the coloured output>')
+    except Exception as x:
+        out['coloured_traces'] = [f'<raised {type(x).__name__}: {x}>']
     # wall-clock timestamps: the caller supplies the time base and the time zone, the host's TZ must not matter
     from datetime import timezone, timedelta
     pw = PyKdebugParser()
